@@ -281,6 +281,19 @@ class RefPeer:
             self.send(prio, R.TP_CM_PF, da, R.tp_rts(len(data), n, limit, pgn))
         return s
 
+    def abort_own(self, s, after):
+        """Originator: give the transfer s up `after` seconds from now with a Connection Abort naming its PGN."""
+        def go():
+            if s["done"] or self.silent:
+                return
+            s["done"] = True
+            s["aborted_by_me"] = self.sim.now
+            if self.fd:
+                self.send(7, R.FD_CM_PF, s["da"], R.fd_abort(s["session"], 250, s["pgn"]))
+            else:
+                self.send(7, R.TP_CM_PF, s["da"], R.tp_abort(250, s["pgn"]))
+        self.sim.schedule(self.sim.now + after, go)
+
     def _send_window(self, s, first, n):
         """Send DT first..first+n-1 spaced by dt_gap (first one after dt_gap too)."""
         def one(i):
